@@ -680,3 +680,89 @@ func TestVerifC11OSProcess(t *testing.T) {
 	rep.Sample(map[string]any{"script": "head -c 2 >/dev/null; exit 0", "expect": "returns promptly; every case a setup error"})
 	rep.RequireMin("os:read-2-bytes-then-exit", 2)
 }
+
+// TestVerifC11StubbornServer: OS-process servers that answer the start-up
+// handshake properly and then do not honour the stop request.
+func TestVerifC11StubbornServer(t *testing.T) {
+	rep := verifkit.Begin("C11", "stubborn-server", "runTestCasesForServer with startServer = runCommand(sh -c script) where the script answers a valid ServerCompatResponse and then {exits on SIGTERM, ignores SIGTERM and idles, ignores SIGTERM and keeps writing to stderr}; 3-case batch answered by a scripted client; oracle: the call returns within the progress bound (the stop escalates to a forced end), every case keeps its own verdict; distinct = script")
+	defer rep.Write()
+	respBytes, _ := proto.Marshal(&conformancev1.ServerCompatResponse{Host: "127.0.0.1", Port: 9})
+	fr := make([]byte, 4+len(respBytes))
+	binary.BigEndian.PutUint32(fr, uint32(len(respBytes)))
+	copy(fr[4:], respBytes)
+	esc := ""
+	for _, b := range fr {
+		esc += fmt.Sprintf("\\%03o", b)
+	}
+	scripts := map[string]string{
+		"honours-sigterm":               "printf '" + esc + "'; exec sleep 40",
+		"ignores-sigterm-idle":          "trap '' TERM; printf '" + esc + "'; exec sleep 40",
+		"ignores-sigterm-writes-stderr": "trap '' TERM; printf '" + esc + "'; i=0; while [ $i -lt 400 ]; do echo still-here >&2; sleep 0.1; i=$((i+1)); done",
+	}
+	var wg sync.WaitGroup
+	var mu sync.Mutex
+	for _, name := range verifkit.SortedKeys(scripts) {
+		wg.Add(1)
+		go func(name string) {
+			defer wg.Done()
+			n := 3
+			var tcs []*conformancev1.TestCase
+			fc := &vfFakeClient{scripts: map[string]vfCaseScript{}, sendErrAt: -1, dieAfter: -1, fired: map[string]int{}, reqs: map[string]*conformancev1.ClientCompatRequest{}, expected: map[string]*conformancev1.ClientResponseResult{}}
+			for i := 0; i < n; i++ {
+				nm := fmt.Sprintf("Stubborn/%s/case %d", name, i)
+				exp := &conformancev1.ClientResponseResult{Payloads: []*conformancev1.ConformancePayload{{Data: []byte(nm)}}}
+				tcs = append(tcs, &conformancev1.TestCase{Request: &conformancev1.ClientCompatRequest{TestName: nm, StreamType: 1}, ExpectedResponse: exp})
+				fc.scripts[nm] = vfCaseScript{Kind: "pass"}
+				fc.expected[nm] = exp
+			}
+			results := newResults(n, &testTrie{}, &testTrie{}, nil)
+			w := map[string]any{"script": scripts[name], "name": name, "cases": n}
+			done := make(chan *verifkit.Panic, 1)
+			start := time.Now()
+			go func() {
+				done <- verifkit.Catch(func() {
+					runTestCasesForServer(context.Background(), false, false, serverInstance{protocol: 1, httpVersion: 1}, tcs, nil, nil,
+						runCommand([]string{"/bin/sh", "-c", scripts[name]}), &vfLinePrinter{}, &vfLinePrinter{}, results, fc, nil, false)
+				})
+			}()
+			var p *verifkit.Panic
+			timedOut := false
+			select {
+			case p = <-done:
+			case <-time.After(28 * time.Second):
+				timedOut = true
+			}
+			took := time.Since(start)
+			fc.cbWG.Wait()
+			mu.Lock()
+			defer mu.Unlock()
+			rep.Eval(1)
+			rep.DistinctKey(name)
+			w["returned_after_ms"] = took.Milliseconds()
+			switch {
+			case timedOut:
+				rep.Violation("batch/os/not-terminating/"+name, "runTestCasesForServer did not return within the progress bound (28 s) with a server command that "+name+"; the stop request must escalate", w)
+				return
+			case p != nil:
+				rep.Violation("batch/os/panic/"+p.Site, p.Value, w)
+				return
+			}
+			rep.Count("stubborn:"+name, 1)
+			rep.Note("%s: returned after %v", name, took.Round(100*time.Millisecond))
+			results.mu.Lock()
+			for _, tc := range tcs {
+				o, ok := results.outcomes[tc.Request.TestName]
+				switch {
+				case !ok:
+					rep.Violation("batch/os/missing-outcome/"+name, "no outcome for "+tc.Request.TestName, w)
+				case o.actualFailure != nil:
+					rep.Violation("batch/os/answered-case-lost-its-verdict/"+name, fmt.Sprintf("%s passed at the client but is recorded as %v", tc.Request.TestName, o.actualFailure), w)
+				}
+			}
+			results.mu.Unlock()
+		}(name)
+	}
+	wg.Wait()
+	rep.Sample(map[string]any{"script": "trap '' TERM; <valid response>; exec sleep 40", "expect": "returns after the graceful period; 3 passing outcomes"})
+	rep.RequireMin("stubborn:ignores-sigterm-idle", 1)
+}
